@@ -154,7 +154,7 @@ impl CellDesc {
     }
 
     pub fn kinematics(&self) -> Arc<dyn Kinematics> {
-        let core = OPWKinematics::new_with_constraints(self.params, Constraints::new(self.limits.from, self.limits.to, self.limits.weight));
+        let core = OPWKinematics::new_with_constraints(self.params, self.limits.build());
         let based: Arc<dyn Kinematics> = match &self.base {
             Some(b) => Arc::new(Base { robot: Arc::new(core), base: to_na(b) }),
             None => Arc::new(core),
